@@ -260,12 +260,13 @@ theorem circFinish_fields (s : St) (o cid : Nat) (args : List Text) (quit : List
   · have f := (notifyC_frame s o quit (str "built") [] []).trans
       (Frame.setC (notifyC s o quit (str "built") [] []).1 o { getC (notifyC s o quit (str "built") [] []).1 o with
         built := ((getC (notifyC s o quit (str "built") [] []).1 o).built.fire true).1 })
+    simp only [registerWaiting]
     exact ⟨f.clen, f.slen, f.streams, f.attacher, f.circuits⟩
   · split
     · have f1 := circClosing_frame s o
       have f2 := Frame.setC (circClosing s o).1 o { getC (circClosing s o).1 o with built := ((getC (circClosing s o).1 o).built.fire false).1 }
       have f3 := notifyC_frame { setC (circClosing s o).1 o { getC (circClosing s o).1 o with built := ((getC (circClosing s o).1 o).built.fire false).1 } with
-          circuits := adel (circClosing s o).1.circuits cid } o quit
+          circuits := adel (circClosing s o).1.circuits cid, viaWait := (circClosing s o).1.viaWait.filter (·.1 ≠ o) } o quit
         (if args.getD 1 [] = str "CLOSED" then str "closed" else str "failed") [] (createFlags (findKeywords args))
       refine ⟨by rw [f3.clen]; exact (f1.trans f2).clen, by rw [f3.slen]; exact (f1.trans f2).slen, by rw [f3.streams]; exact (f1.trans f2).streams,
         by rw [f3.attacher]; exact (f1.trans f2).attacher, ?_⟩
@@ -273,5 +274,22 @@ theorem circFinish_fields (s : St) (o cid : Nat) (args : List Text) (quit : List
       show adel (circClosing s o).1.circuits cid = _
       rw [f1.circuits]
     · exact ⟨rfl, rfl, rfl, rfl, rfl⟩
+
+
+theorem insertFire_perm (x : Out) (l : List Out) : (insertFire x l).Perm (x :: l) := by
+  induction l with
+  | nil => exact List.Perm.refl _
+  | cons y ys ih =>
+    unfold insertFire
+    split
+    · exact List.Perm.refl _
+    · exact (List.Perm.cons y ih).trans (List.Perm.swap x y ys)
+
+theorem mergeFires_perm (a b : List Out) : (mergeFires a b).Perm (a ++ b) := by
+  induction b with
+  | nil => simp [mergeFires]
+  | cons x b ih =>
+    unfold mergeFires
+    exact (insertFire_perm x _).trans ((List.Perm.cons x ih).trans List.perm_middle.symm)
 
 end TxV.TorState
